@@ -515,8 +515,12 @@ class Inliner:
         if sum(1 for _, a in bound if has_call(a)) > 1:
             raise NotInlinable("several arguments with calls")
         renames = {}
-        for l in h.locals:          # comprehension variables and the like
-            renames[l] = self.fresh(l)
+        arg_names = set()
+        for _, a in bound:
+            arg_names |= {x.id for x in ast.walk(a) if isinstance(x, ast.Name)}
+        for l in h.locals:          # comprehension variables: scoped to their comprehension, so they only need a
+            if l in arg_names:      # fresh name when a substituted argument mentions the same name (capture)
+                renames[l] = self.fresh(l)
         value = copy.deepcopy(h.body[0].value)
         value = _Subst(exprs, renames).visit(value)
         ast.copy_location(value, call)
